@@ -1149,6 +1149,18 @@ impl DhtCoreEngine {
         }
     }
 
+    /// Number of pending outbound requests of this engine.
+    #[cfg(feature = "verif-hooks")]
+    pub async fn verif_pending_len(&self) -> usize {
+        self.pending_requests.read().await.len()
+    }
+
+    /// Engine in log-only validation mode (as the network manager creates it).
+    #[cfg(feature = "verif-hooks")]
+    pub fn verif_new_log_only(node_id: NodeId) -> Result<Self> {
+        Self::new_with_validation_mode(node_id, CloseGroupEnforcementMode::LogOnly)
+    }
+
     /// Find nodes closest to a key
     pub async fn find_nodes(&self, key: &DhtKey, count: usize) -> Result<Vec<NodeInfo>> {
         let routing = self.routing_table.read().await;
